@@ -19,7 +19,7 @@ const (
 // Mix is the combination of annotations on the subject types of package d.
 type Mix struct {
 	Imm   bool // @immutable on T and N
-	Ctor  int  // 0 none; 1 "@constructor NewT" (and NewN on N); 2 "@constructor NewT, Alt"; 3 two lines "NewT" + "Alt"
+	Ctor  int  // 0 none; 1 "@constructor NewT" (and NewN on N); 2 "@constructor NewT, Alt"; 3 two lines "NewT" + "Alt"; 4 "NewT,<TAB>Alt"; 5 "<TAB>NewT ,Alt," (blanks other than one space around the commas, trailing comma)
 	Mut   bool // @mutable on T.M and T.Ms
 	Extra int  // 0 none; 1 prose lines around and annotations in reverse order; 2 type inside a grouped type(...) declaration
 	PreludeLast bool // type declarations after the blocks of file a.go
@@ -34,7 +34,7 @@ func (m Mix) CtorNames() []string {
 	switch m.Ctor {
 	case 1:
 		return []string{"NewT"}
-	case 2, 3:
+	case 2, 3, 4, 5:
 		return []string{"NewT", "Alt"}
 	}
 	return nil
@@ -253,6 +253,10 @@ func annLinesT(m Mix) []string {
 		ctor = []string{"// @constructor NewT, Alt"}
 	case 3:
 		ctor = []string{"// @constructor NewT", "// @constructor Alt"}
+	case 4:
+		ctor = []string{"// @constructor NewT,\tAlt"}
+	case 5:
+		ctor = []string{"// @constructor\tNewT ,Alt,"}
 	}
 	if m.Extra == 1 {
 		l = append(l, "// T is the subject type; the word @immutable in the middle of a line means nothing.")
